@@ -7,6 +7,7 @@ import Mdsort.Proofs.MainText
 import Mdsort.Proofs.MainTextMacros
 import Mdsort.Proofs.MainTextLex
 import Mdsort.Proofs.MainTextLexTree
+import Mdsort.Proofs.ConfCfg4
 
 /-!
 # C14 - a configuration is accepted or rejected as a whole, and the parser is total
@@ -343,6 +344,84 @@ example : Spec.ConfOK (fun _ => true)
                (.attBlock 1 (.block 1 (.mtch 1 (.leaf (.old 1)) (.leaf (.exec 1 false false [[108, 112, 114]])))))))))) },
      { paths := [stdinStr], tree := .block 1 (.mtch 1 (.leaf (.command 1 [[116]])) (.leaf (.reject 1))) }] = true := by
   decide +kernel
+
+/-! ## The grammar of parse.y itself (Gen/Grammar.lean: bison's report on the parse.y of this run)
+
+`Gen.productions` is the list of productions bison prints for the working tree's parse.y, regenerated
+before every build (tools/gen_grammar.py).  `Spec.Cfg.Tree.ok` checks a parse tree against it: every
+inner node is an instance of a production of the table, every leaf a terminal.  The proofs below end in
+facts `Gen.productions.contains ("expr3", ["HEADER", "strings", "pattern"]) = true := by decide`
+(Proofs/ConfCfg1.lean), one per production: removing or altering a production of parse.y breaks this
+file. -/
+
+/-- Every documented configuration is a sentence of the yacc grammar: for every configuration `bs` in
+`Spec.ConfOK` (the domain of `C14_accepts_grammar_partial`), `Spec.Cfg.treeOfConf bs` is a parse tree
+over the productions parse.y has NOW, its root is the start symbol, and its yield is the sequence of
+token kinds of the written form - as `Spec.printBlocks` writes it (`blockToks`) and as the lexer model
+reads it back from the bytes (`Lexes`: no diagnostic up to the end of the text, pattern / unit mode
+exactly at PATTERN / SCALAR tokens). -/
+theorem C14_printed_in_yacc_grammar (rxOk : Pat → Bool) (bs : List PBlock) (hok : Spec.ConfOK rxOk bs = true) :
+    (Spec.Cfg.treeOfConf bs).ok Gen.productions = true ∧
+    (Spec.Cfg.treeOfConf bs).root = Gen.grammarStart ∧
+    (Spec.Cfg.treeOfConf bs).yield = (bs.flatMap Spec.blockToks).map Spec.Cfg.ptokKind ∧
+    Spec.Cfg.Lexes false (Spec.printBlocks bs) (Spec.Cfg.treeOfConf bs).yield :=
+  Proofs.Cfg.printed_in_grammar rxOk bs hok
+
+/-- Non-vacuity and a look at the object: the tree of `stdin { match ! new move "d" }` is checked by
+evaluation against the regenerated table, and its yield is the token sequence one expects. -/
+example :
+    let bs : List PBlock := [{ paths := [stdinStr], tree := .block 1 (.mtch 1 (.neg 1 (.leaf (.new 1))) (.leaf (.move 1 [100]))) }]
+    Spec.ConfOK (fun _ => true) bs = true ∧ (Spec.Cfg.treeOfConf bs).ok Gen.productions = true ∧
+    (Spec.Cfg.treeOfConf bs).yield = ["STDIN", "'{'", "MATCH", "NEG", "NEW", "MOVE", "STRING", "'}'"] := by
+  decide +kernel
+
+/-- The checker is not vacuous: a tree using a production the grammar does not have (`expr3: SYNC`) is
+refused, and so is a tree whose leaf is a non-terminal. -/
+example :
+    (Spec.Cfg.N "expr3" [Spec.Cfg.T "SYNC"]).ok Gen.productions = false ∧
+    (Spec.Cfg.N "expr1" [Spec.Cfg.T "expr3"]).ok Gen.productions = false ∧
+    (Spec.Cfg.N "expr1" [Spec.Cfg.N "expr3" [Spec.Cfg.T "OLD"]]).ok Gen.productions = true := by
+  decide +kernel
+
+/-- The other direction, for the hand-written parser model: EVERY byte string `parseConfig` accepts (no
+diagnostic, any `-D` definitions, any home directory, any regex library) is a sentence of the grammar
+parse.y has now - the token kinds the lexer model delivers for it up to the end of the input, in the
+modes the grammar's mid-rule actions set (`Lexes`), are the yield of a checked parse tree over
+`Gen.productions` whose root is the start symbol.  So the recursive-descent model accepts nothing the
+context-free grammar does not derive (it rejects more: the semantic checks); none of the two `error`
+productions is used.  Not stated: that the tree is the one the LALR automaton builds (the grammar is
+ambiguous without the `%left` declarations, which are regenerated as data, `Gen.grammarPrecedence`,
+but not interpreted). -/
+theorem C14_model_parser_uses_grammar (home : Bytes) (defs : List (Bytes × Bytes)) (rxOk : Pat → Bool) (input : Bytes)
+    (blocks : List PBlock) (h : parseConfig home defs rxOk input = .ok blocks) :
+    ∃ t : Spec.Cfg.Tree, t.ok Gen.productions = true ∧ t.root = Gen.grammarStart ∧
+      Spec.Cfg.Lexes false input t.yield :=
+  Proofs.Cfg.accepted_in_grammar h
+
+/-- Non-vacuity: an accepted file with a macro definition, a comment, a bare string, a date with a unit
+prefix, a pattern with another delimiter and an attachment block (none of which `Spec.printBlocks` writes). -/
+example : ∃ b bs, parseConfig [] [] (fun _ => true)
+    "d = \"x\" # comment\nmaildir \"${d}\" { match header \"To\" |a/b|i or date access < 3 we attachment { match all exec \"t\" } }".toUTF8.toList
+      = .ok (b :: bs) :=
+  Proofs.Conf.ok_of_isOkNonempty (by decide +kernel)
+
+/-- The shape of the grammar the parser model was written for, against what parse.y declares now:
+* the precedence declarations are `%left AND OR`, `%left NEG`, `%left ATTACHMENT` in this order (lowest
+  first) and no rule has a `%prec` - what `parseBinTail` (one left-associative level for `and` / `or`) and
+  `parseUnary` (`!` and `attachment` bind tighter than both) implement;
+* the table consists of the productions the two theorems above use (`Proofs.Cfg.usedProductions`: what the
+  printer writes and the parser model implements) and of exactly two `error` productions, `grammar: error`
+  and `exprs: error` - the error recovery that is not modelled; a production added to parse.y is therefore
+  reported here before any generator knows the new syntax;
+* `SYNC` is the only declared token no rule mentions. -/
+theorem C14_grammar_shape :
+    Gen.grammarPrecedence = [("left", ["AND", "OR"]), ("left", ["NEG"]), ("left", ["ATTACHMENT"])] ∧
+    Gen.grammarRulePrec = [] ∧
+    Gen.productions.all (fun p => Proofs.Cfg.usedProductions.contains p || Gen.errorProductions.contains p) = true ∧
+    Proofs.Cfg.usedProductions.all (fun p => Gen.productions.contains p) = true ∧
+    Gen.errorProductions = [("grammar", ["error"]), ("exprs", ["error"])] ∧
+    Gen.grammarUnusedTokens = ["SYNC"] :=
+  ⟨by decide, by decide, Proofs.Cfg.table_is_covered.1, Proofs.Cfg.table_is_covered.2.1, by decide, by decide⟩
 
 /-! ## The whole program from the configuration TEXT (`Model.mainText`, Model/MainText.lean)
 
